@@ -26,7 +26,11 @@ unanswered, and spy (2) must never see an endpoint drive tx.valid or request a h
 token addressed to the device does not carry its number and direction.
 
 Not judged: behaviour of the control endpoint itself (C07-C10), response latency beyond generous windows,
-content/flags of the OUT stream beyond the delivered bytes (C13), ZLP/flush policy beyond packetisation (C11).
+first/last flags of the OUT stream (C13), flush/discard of the IN stream (C11).  The OUT endpoints' buffers are never
+overflowed (a held consumer gets at most 2*mps-1 bytes): what the endpoint does on overflow is C13's subject.
+Known finding (findings/C12.md): `in_advanced_by_ack_to_other_device` - the only mechanism name that is produced when an
+un-ACKed IN endpoint advances right after the host ACKed a transaction of another device *address* and no token for
+this device was sent in between; every other deviation keeps its own mechanism name.
 Deviation from DESIGN.md: CLEAR_FEATURE traffic is left to C14 (same harness) so that the two properties have
 disjoint known findings.
 """
@@ -51,7 +55,8 @@ REQUIRED_EVENTS = ["ep_tx_valid_cycles", "ep_handshake_requests", "in_data_packe
 ASSUMPTIONS = ["legal host: one transaction at a time, waits for the response or a timeout, handshake within the turn-around time or not at all",
                "a NAK to IN is accepted unless the next packet has been complete for >= 25 cycles (60 at the 60 MHz tables)",
                "the control endpoint's own responses are not judged here",
-               "CLEAR_FEATURE(ENDPOINT_HALT) traffic is exercised in C14"]
+               "CLEAR_FEATURE(ENDPOINT_HALT) traffic is exercised in C14",
+               "OUT endpoint buffers are never overflowed (C13's subject)"]
 
 
 def run_case(rng, tier, res):
